@@ -29,6 +29,33 @@ func VfC11_ClientBytes() {
 	}
 }
 
+// VfC11_InlineBytes: an inline command line (what a telnet user or a port scanner sends: anything
+// that does not start with a RESP type byte) of arbitrary bytes, properly terminated: however it is
+// tokenised - blanks, quotes, escapes, whatever the decoder understands - it never crashes the
+// proxy; the request is answered or forwarded, or the connection gets a decode error.
+func VfC11_InlineBytes() {
+	l := nd.Concrete(nd.IntRange("len", 1, nd.Param("maxlen", 6)))
+	line := nd.Bytes("d", l)
+	t := RespType(line[0])
+	nd.Assume(t != Integer && t != SimpleString && t != Error && t != BulkString && t != Array)
+	for i := range line {
+		nd.Assume(line[i] != LF)
+	}
+	data := append(append([]byte{}, line...), CR, LF)
+	p, clients := vfNewProc(nil, "10.0.0.1:7000")
+	dec := newDecoder(&vfChunkReader{data: data}, 32)
+	nd.PanicLabel("inline-bytes")
+	v, err := dec.Decode()
+	if err != nil {
+		nd.Cover("decode-error")
+		return
+	}
+	raw := newRawRequest(v)
+	p.handleRequest(raw)
+	nd.Assert(vfDone(raw.done) || vfForwarded(clients) > 0, "a decoded request is answered or forwarded")
+	nd.Cover("request-handled")
+}
+
 // VfC11_Nesting: array nesting deeper than any legitimate message is rejected instead of being
 // followed recursively (stack use must not be chosen by the sender).
 func VfC11_Nesting() {
